@@ -18,33 +18,104 @@ import os
 
 import verif
 
-# name -> (NK, gap classes, what the universe is for).  Constants live in spec/ringlookup/MC_<name>.cfg.
+AJ = ["ACTIVE", "JOINING"]
+S4 = ["ACTIVE", "LEAVING", "PENDING", "JOINING"]
+S5 = S4 + ["LEFT"]
+
+
+def U(nk, gaps, n, maxtok, maxidle, z, states, hbs, rfmax, canon=2, remove=False, excl=(), sets=False, execs=0, xmax=0, what=""):
+    """One bounded universe = the constants of spec/ringlookup/MC_<name>.cfg (written by `python3 checks/ringlookup_common.py
+    --write-cfgs`).  execs = k > 0: the executor binding (C02) runs on every k-th descriptor of the universe."""
+    return dict(nk=nk, gaps=list(gaps), n=n, maxtok=maxtok, maxidle=maxidle, z=z, states=states, hbs=hbs, rfmax=rfmax,
+                canon=canon, remove=remove, excl=list(excl), sets=sets or execs > 0, execs=execs, xmax=xmax, what=what)
+
+
 UNIVERSES = {
     # quick
-    "q_layout":  (5, [2], "token layouts: <=3 instances x <=2 tokens on 4 positions (0,1 | gap | 2^32-2,2^32-1), 1 tokenless, zones 0..2, ACTIVE/JOINING"),
-    "q_health":  (4, [1], "states x health x zones: 3 single-token instances on 3 positions, {ACTIVE,LEAVING,PENDING} x {edge,stale} heartbeat, zones 0..3 (JOINING/LEFT: q_layout, q_steps, q_hb)"),
-    "q_hb":      (4, [1], "all three heartbeat classes x {ACTIVE,LEFT}, 2 instances, tokenless allowed"),
-    "q_steps":   (4, [1], "AddInstance and RemoveInstance steps in every relative token position (ids not ordered by token)"),
-    "q_zones":   (5, [2], "C02: 4 single-token instances, zones 0..4 (fewer, equal, more than RF 1..4), ACTIVE/JOINING"),
-    "q_stale":   (4, [1], "C02: unhealthy non-extending instances: ACTIVE x {edge,stale}, zones 0..3, tokenless allowed"),
-    # thorough
-    "t_layout":  (6, [3], "token layouts: <=3 instances x <=2 tokens on 5 positions (0,1,2 | gap | 2^32-2,2^32-1), 1 tokenless, zones 0..2, ACTIVE/JOINING"),
-    "t_health":  (4, [1], "states x health x zones with a tokenless instance"),
-    "t_hb":      (4, [1], "all five states x all three heartbeat classes, 3 single-token instances, no zones"),
-    "t_active":  (9, [4], "successor/boundary: <=4 instances x <=2 tokens on 8 positions, everything ACTIVE, RF 1..5"),
-    "t_steps":   (5, [2], "AddInstance and RemoveInstance steps in every relative token position, 4 positions"),
-    "t_z5ext":   (6, [3], "C02: 5 single-token instances, zones 0..5, RF 1..5, ACTIVE/JOINING"),
-    "t_z5stale": (6, [3], "C02: 5 single-token instances, zones 0..5, RF 1..5, ACTIVE x {edge,stale}"),
+    "q_layout":  U(5, [2], 3, 2, 1, 2, AJ, ["edge"], 3,
+                   what="token layouts: <=3 instances x <=2 tokens on 4 positions (0,1 | gap | 2^32-2,2^32-1), 1 tokenless, zones 0..2, ACTIVE/JOINING"),
+    "q_health":  U(4, [1], 3, 1, 0, 3, ["ACTIVE", "LEAVING", "PENDING"], ["edge", "stale"], 3,
+                   what="states x health x zones: 3 single-token instances, {ACTIVE,LEAVING,PENDING} x {edge,stale}, zones 0..3 (JOINING/LEFT: q_layout, q_steps, q_hb)"),
+    "q_hb":      U(4, [1], 2, 1, 1, 1, ["ACTIVE", "LEFT"], ["fresh", "edge", "stale"], 3, execs=1,
+                   what="all three heartbeat classes x {ACTIVE,LEFT}, 2 instances, tokenless allowed"),
+    "q_steps":   U(4, [1], 3, 1, 1, 1, AJ, ["edge"], 2, canon=1, remove=True,
+                   what="AddInstance and RemoveInstance steps in every relative token position (ids not ordered by token)"),
+    "q_excl":    U(4, [1], 3, 1, 1, 3, AJ, ["edge"], 3, excl=[2], execs=1,
+                   what="ring.Config.ExcludedZones = {zone 2}: 3 single-token instances, zones 0..3, ACTIVE/JOINING, tokenless allowed"),
+    "q_zones":   U(5, [2], 4, 1, 1, 4, AJ, ["edge"], 4, execs=6,
+                   what="C02: 4 single-token instances, zones 0..4 (fewer, equal, more than RF 1..4), ACTIVE/JOINING"),
+    "q_stale":   U(4, [1], 3, 1, 1, 3, ["ACTIVE"], ["edge", "stale"], 3, execs=1,
+                   what="C02: unhealthy non-extending instances: ACTIVE x {edge,stale}, zones 0..3, tokenless allowed"),
+    # thorough (RF 1..5 everywhere)
+    "t_layout":  U(6, [3], 3, 2, 1, 2, AJ, ["edge"], 5,
+                   what="token layouts: <=3 instances x <=2 tokens on 5 positions (0,1,2 | gap | 2^32-2,2^32-1), 1 tokenless, zones 0..2, ACTIVE/JOINING"),
+    "t_health":  U(4, [1], 3, 1, 1, 3, S4, ["edge", "stale"], 5, execs=8,
+                   what="states x health x zones: 3 single-token instances + tokenless, 4 states x {edge,stale}, zones 0..3"),
+    "t_hb":      U(4, [1], 3, 1, 0, 2, S5, ["fresh", "edge", "stale"], 5,
+                   what="all five states x all three heartbeat classes, 3 single-token instances, zones 0..2"),
+    "t_active":  U(9, [4], 4, 2, 1, 0, ["ACTIVE"], ["edge"], 5,
+                   what="successor/boundary: <=4 instances x <=2 tokens on 8 positions, everything ACTIVE"),
+    "t_steps":   U(5, [2], 3, 1, 1, 2, AJ, ["edge"], 3, canon=1, remove=True,
+                   what="AddInstance and RemoveInstance steps in every relative token position, 4 positions"),
+    "t_n4zs":    U(5, [2], 4, 1, 1, 3, S4, ["edge"], 5, execs=16,
+                   what="4 single-token instances + tokenless: all four behaviour classes of states x zones 0..3"),
+    "t_n4hb":    U(5, [2], 4, 1, 0, 2, ["ACTIVE", "LEAVING"], ["fresh", "edge", "stale"], 5,
+                   what="4 single-token instances: {ACTIVE,LEAVING} x all three heartbeat classes x zones 0..2"),
+    "t_excl":    U(5, [2], 3, 1, 1, 3, AJ, ["edge", "stale"], 5, excl=[1, 3], execs=8,
+                   what="ring.Config.ExcludedZones = {zone 1, zone 3}: 3 single-token instances on 4 positions, zones 0..3, ACTIVE/JOINING x {edge,stale}"),
+    "t_expand":  U(5, [2], 4, 1, 0, 2, AJ, ["edge", "stale"], 2, xmax=5,
+                   what="ignore-unhealthy strategy with per-call replication factors 1..5 over configured 1..2: 4 single-token instances, zones 0..2, ACTIVE/JOINING x {edge,stale}"),
+    "t_z5ext":   U(6, [3], 5, 1, 0, 5, AJ, ["edge"], 5, execs=16,
+                   what="C02: 5 single-token instances, zones 0..5, ACTIVE/JOINING"),
+    "t_z5stale": U(6, [3], 5, 1, 0, 5, ["ACTIVE"], ["edge", "stale"], 5, execs=16,
+                   what="C02: 5 single-token instances, zones 0..5, ACTIVE x {edge,stale}"),
+    "t_z5mix":   U(6, [3], 5, 1, 0, 5, ["ACTIVE", "LEAVING", "JOINING"], ["edge"], 5,
+                   what="C02: 5 single-token instances, zones 0..5, {ACTIVE,LEAVING,JOINING}"),
 }
 
 TIERS = {
-    ("c01", "quick"):    dict(cfgs=["q_layout", "q_health", "q_hb", "q_steps"], rings=60, keys=8),
-    ("c01", "thorough"): dict(cfgs=["t_layout", "t_health", "t_hb", "t_active", "t_steps", "q_hb", "q_zones"],
-                              rings=600, keys=10),
-    ("c02", "quick"):    dict(cfgs=["q_zones", "q_stale", "q_hb"], rings=60, keys=2),
-    ("c02", "thorough"): dict(cfgs=["t_z5ext", "t_z5stale", "t_health", "q_zones", "q_stale", "q_hb"],
-                              rings=600, keys=2),
+    ("c01", "quick"):    dict(cfgs=["q_layout", "q_health", "q_hb", "q_steps", "q_excl"], rings=60, keys=8),
+    ("c01", "thorough"): dict(cfgs=["t_layout", "t_health", "t_hb", "t_active", "t_steps", "t_n4zs", "t_n4hb", "t_excl", "t_expand", "q_hb", "q_zones"],
+                              rings=5000, keys=10),
+    ("c02", "quick"):    dict(cfgs=["q_zones", "q_stale", "q_hb", "q_excl"], rings=60, keys=2),
+    ("c02", "thorough"): dict(cfgs=["t_z5ext", "t_z5stale", "t_z5mix", "t_health", "t_n4zs", "t_excl", "q_zones", "q_stale", "q_hb"],
+                              rings=5000, keys=2),
 }
+
+
+def write_cfgs():
+    def tset(xs, q=False):
+        return "{" + ", ".join(('"%s"' % x) if q else str(x) for x in xs) + "}"
+    for name, u in UNIVERSES.items():
+        body = """\\* %s: %s
+\\* (generated from UNIVERSES in checks/ringlookup_common.py: python3 checks/ringlookup_common.py --write-cfgs)
+CONSTANTS
+  NK = %d
+  Gaps = %s
+  N = %d
+  MaxTok = %d
+  MaxIdle = %d
+  Z = %d
+  StateSet = %s
+  HbSet = %s
+  RFMax = %d
+  Canon = %d
+  WithRemove = %s
+  Excl = %s
+  EmitOn = TRUE
+  EmitSets = %s
+  XMax = %d
+INIT Init
+NEXT Next
+VIEW View
+INVARIANTS TypeOK SizeOK ZoneOK ClockwiseFirst SlackExact WalkDefsAgree QuorumIntersection ExpandedOK Emit
+PROPERTIES MinimalDisruption
+CHECK_DEADLOCK FALSE
+""" % (name, u["what"], u["nk"], tset(u["gaps"]), u["n"], u["maxtok"], u["maxidle"], u["z"], tset(u["states"], True),
+       tset(u["hbs"], True), u["rfmax"], u["canon"], "TRUE" if u["remove"] else "FALSE", tset(u["excl"]),
+       "TRUE" if u["sets"] else "FALSE", u["xmax"])
+        open(os.path.join(verif.SPEC, "ringlookup", "MC_%s.cfg" % name), "w").write(body)
+
 
 ASSUMPTIONS = [
     "monotone embedding of key classes into uint32 (harness/internal/abs KeyClasses, RandomKeyClasses) and its inverse, rank compression (abs.RankCompressor)",
@@ -52,7 +123,9 @@ ASSUMPTIONS = [
     "edge = exactly the 60 s timeout, stale = 61 s or more) and once with the clock inside a second (replay: +500 ms, record: random ms; "
     "fresh = <= 58 s + f, edge = 59 s + f, stale = 60 s + f, i.e. timeout < age < timeout + 1 s, or more)",
     "instances and zones may be renamed (Canon >= 1 universes enumerate one descriptor per renaming)",
-    "default replication strategy; per-call replication factor <= configured one; ExcludedZones empty; token sets pairwise disjoint",
+    "default replication strategy everywhere (a per-call replication factor above the configured one is refused: LookupCall); the ignore-unhealthy "
+    "strategy with expanded replication only in universe t_expand (LookupIgnoreUnhealthy); token sets pairwise disjoint",
+    "executor binding (C02): callbacks return immediately, success exactly on the chosen subset; every subset of the replica / replication set is tried",
 ]
 
 
@@ -102,7 +175,8 @@ def run_family(ctx, part):
     # 1. TLC: the theorems on every descriptor of every universe of the tier, and the expected results
     inputs, total = [], 0
     for name in plan["cfgs"]:
-        nk, gaps, _what = UNIVERSES[name]
+        u = UNIVERSES[name]
+        nk, gaps = u["nk"], u["gaps"]
         cover = ctx.tier == "thorough" and name in ("t_steps", "q_steps")
         r = ctx.tlc("ringlookup", "RingLookupMC", cfg="MC_%s.cfg" % name, timeout=2400, workers=_workers(),
                     deadlock=False, coverage=cover)
@@ -113,7 +187,7 @@ def run_family(ctx, part):
             raise verif.Inconclusive("MC_%s: action never taken: %s" % (name, r.coverage_zero))
         if selftest == "corrupt-expected" and not inputs:
             _corrupt_expected(r.out_path)
-        inputs.append({"path": r.out_path, "nk": nk, "gaps": gaps, "label": name})
+        inputs.append({"path": r.out_path, "nk": nk, "gaps": gaps, "label": name, "execs": u["execs"] if part == "c02" else 0})
         total += r.emitted
 
     # 2. spec -> code: replay every descriptor against the real ring
@@ -158,7 +232,7 @@ def run_family(ctx, part):
             "got": one, "want": x["want"]}, "record/validate")
     ctx.extra["trace_rings"] = nlines
     ctx.extra["trace_rejections"] = len(rejected)
-    ctx.extra["universes"] = {n: UNIVERSES[n][2] for n in plan["cfgs"]}
+    ctx.extra["universes"] = {n: UNIVERSES[n]["what"] for n in plan["cfgs"]}
     return "model_checking"
 
 
@@ -178,3 +252,10 @@ def _diff(logged, want):
     if "muz" in want and logged.get("muz") != want.get("muz"):
         return "maxunavailablezones"
     return "zoneawareflag"
+
+
+if __name__ == "__main__":
+    import sys
+    if "--write-cfgs" in sys.argv:
+        write_cfgs()
+        print("wrote %d cfgs" % len(UNIVERSES))
